@@ -172,8 +172,13 @@ func c19Case(f []string) (out string) {
 		// resolve4 xid ci hw mt addr ctxgw ctxmask nctxdns dns.. pgw psid unnum lease npdns pdns.. npools {cidr gw nopts {tag,enc,val/..}..}..
 		// pkg/dhcp.ResolveV4 (address already chosen, no allocator registry) followed by buildResponseFromResolved
 		allocator.ResetGlobalRegistry()
+		defer allocator.ResetGlobalRegistry()
 		req := c19Req(f)
-		ctx := &allocator.Context{IPv4Address: c19IP(f[5]), IPv4Gateway: c19IP(f[6])}
+		alloc := f[5] == "alloc"
+		ctx := &allocator.Context{IPv4Gateway: c19IP(f[6]), ProfileName: "p", SessionID: "s1"}
+		if !alloc {
+			ctx.IPv4Address = c19IP(f[5])
+		}
 		if f[7] != "nil" {
 			ctx.IPv4Netmask = net.IPMask(c19Hex(f[7]))
 		}
@@ -198,7 +203,7 @@ func c19Case(f []string) (out string) {
 		np := int(c19U(f[k]))
 		k++
 		for i := 0; i < np; i++ {
-			pool := ipcfg.IPv4Pool{Network: c19Str(f[k]), Gateway: c19Str(f[k+1]), LeaseTime: 7777}
+			pool := ipcfg.IPv4Pool{Name: "pool" + strconv.Itoa(i), Network: c19Str(f[k]), Gateway: c19Str(f[k+1]), LeaseTime: 7777}
 			no := int(c19U(f[k+2]))
 			k += 3
 			for j := 0; j < no; j++ {
@@ -207,6 +212,10 @@ func c19Case(f []string) (out string) {
 				k++
 			}
 			prof.Pools = append(prof.Pools, pool)
+		}
+		if alloc {
+			// the allocation branch: a real allocator registry built from this very profile
+			allocator.InitGlobalRegistry(map[string]*ipcfg.IPv4Profile{"p": prof}, nil)
 		}
 		res := dhcp.ResolveV4(ctx, prof)
 		if res == nil {
@@ -226,7 +235,7 @@ func c19Case(f []string) (out string) {
 		if len(os) > 0 {
 			oj = strings.Join(os, ".")
 		}
-		sum := fmt.Sprintf("r=%s s=%s m=%s dns=%s lease=%d nr=%d opts=%s", c19ShowIPN(res.Router), c19ShowIPN(res.ServerID), c19Show(res.Netmask),
+		sum := fmt.Sprintf("y=%s r=%s s=%s m=%s dns=%s lease=%d nr=%d opts=%s", c19ShowIPN(res.YourIP), c19ShowIPN(res.Router), c19ShowIPN(res.ServerID), c19Show(res.Netmask),
 			dj, uint32(res.LeaseTime.Seconds()), len(res.ClasslessRoutes), oj)
 		return sum + " ; " + c19Frame(p.buildResponseFromResolved(req, res, dhcp4.MessageType(c19U(f[4]))))
 	case "resolved":
